@@ -97,3 +97,10 @@ claim(
     "Trusted: python ast, bfsa, python's own regex parser (re._parser) and string.Formatter for parsing the literal patterns/templates.",
     "DESIGN.md section 4, C12",
 )
+claim(
+    "C14", "other",
+    "interprocedural exception-escape analysis (may-raise sets with witnesses) over the structural abstract interpretation: fixed catalogue of implicit raisers typed by shape inference, discharge by path facts and audited table invariants, handler filtering by class hierarchy; typed rule for the BF2 tagged union; loop-progress rule; global-write effect rule",
+    "Decides for the five parser entry points (BF3 reader, BEC2 reader with every decryptor set by class-hierarchy analysis, BF2 importer, identifier parser, filter formatter): every exception class that can leave them -- explicit raises and implicit raisers (subscripts, unpacking, int(), unhexlify, to_bytes, decode, pop, division) minus what enclosing handlers catch, implicit ones discharged by dominating length/truthiness/membership guards, successful earlier lookups, certainly-present keys or audited constant tables -- is a FormatError, a ValueError or (path I/O) an OSError; sites where another class escapes are reported by raising construct (the ones present on the pinned tree are known findings with failing inputs). Consumers of the BF2 line parser's tagged union that need one payload type are reported (TypeError/AttributeError sources); every reachable while-loop consumes input from a finite source or raises at its end; no reachable function writes library-global state. Not modelled: TypeError/AttributeError outside that union, MemoryError, RecursionError.",
+    "Trusted: python ast, bfsa (abstract interpreter, EXC catalogue, facts), spec/discharge.json (per-site reasons), summaries at the boundary to the vendored ECC library (decoder escapes as established under C19; key agreement on validated keys assumed total) and of the AES block functions (licensed by the concrete-control interpretation of C16).",
+    "DESIGN.md section 4, C14",
+)
